@@ -599,6 +599,61 @@ func mbScriptsString(scripts [][]Tok) string {
 	return strings.Join(parts, ";")
 }
 
+// the positional stories of genMultiB for arity n, odd position k
+func mbPositional(n, k int, emit func(scripts [][]Tok, order []int)) {
+	full := func(end byte, vals int) [][]Tok {
+		sc := make([][]Tok, n)
+		for i := range sc {
+			sc[i] = mbScript(i, mbShape{vals, end})
+		}
+		return sc
+	}
+	others := func(rounds int) []int {
+		var o []int
+		for r := 0; r < rounds; r++ {
+			for j := 0; j < n; j++ {
+				if j != k {
+					o = append(o, j)
+				}
+			}
+		}
+		return o
+	}
+	rep := func(x, times int) []int {
+		o := make([]int, times)
+		for i := range o {
+			o[i] = x
+		}
+		return o
+	}
+	// (1) k runs ahead: both values and its completion first, then the others round-robin (2 values + C each)
+	emit(full('C', 2), append(rep(k, 3), others(3)...))
+	// (2) k lags: the others emit everything and complete, then k
+	emit(full('C', 2), append(others(3), rep(k, 3)...))
+	// (3) k runs ahead with its values, the others catch up with one value each, then k completes, then the rest
+	emit(full('C', 2), append(append(append(rep(k, 2), others(1)...), k), others(2)...))
+	// (4) k completes empty before anybody emits
+	sc := full('C', 1)
+	sc[k] = mbScript(k, mbShape{0, 'C'})
+	emit(sc, append([]int{k}, others(2)...))
+	// (5) k fails after one value while every other source has one value queued
+	sc = full('C', 2)
+	sc[k] = mbScript(k, mbShape{1, 'E'})
+	emit(sc, append(append(others(1), rep(k, 2)...), others(2)...))
+	// (6) k is the only one that never completes: the others complete with their values queued behind k's
+	sc = full('C', 2)
+	sc[k] = mbScript(k, mbShape{2, '-'})
+	emit(sc, append(others(3), rep(k, 2)...))
+	// (7) everybody emits one value starting at k (rotation), then completes in the same rotation
+	var rot []int
+	for r := 0; r < 2; r++ {
+		for j := 0; j < n; j++ {
+			rot = append(rot, (k+j)%n)
+		}
+	}
+	emit(full('C', 1), rot)
+}
+
 type mbVariant struct {
 	op, variant string
 	outers      []string
@@ -733,6 +788,26 @@ func genMultiB(tier string, seed int64, only string) []*Case {
 			random(v, 3000)
 		} else {
 			random(v, 300)
+		}
+		// positional stories: the numbered arities (Zip2..6, ZipWith1..5, CombineLatest2..5, …) are written out
+		// per source position; for every arity and every position k, the orders in which position k is the odd one
+		// out (runs ahead and finishes with values queued / lags behind everybody / finishes empty / fails), so
+		// that a slip in the wiring of ONE position of ONE arity is reached in every tier
+		if v.op == "Zip" || v.op == "CombineLatest" || v.op == "ZipAll" || v.op == "CombineLatestAll" {
+			lo := v.minN
+			if lo < 2 {
+				lo = 2
+			}
+			for _, outer := range outers {
+				if outer != "C" {
+					continue
+				}
+				for n := lo; n <= v.maxN; n++ {
+					for k := 0; k < n; k++ {
+						mbPositional(n, k, func(scripts [][]Tok, order []int) { add(v, n, outer, scripts, order) })
+					}
+				}
+			}
 		}
 	}
 	// GroupBy: one source, value alphabet {1,2,3,4}, keys, recorder delays
